@@ -212,6 +212,17 @@ pub fn gen(rng: &mut Rng, index: u64) -> String {
     if index % 25 == 24 {
         return gen_near(rng);
     }
+    if index % 50 == 7 {
+        // two line strings with more vertices than any indexing threshold: crossing (distance 0) or apart
+        let (n1, n2) = (long_count(rng).min(200), long_count(rng).min(200));
+        let a = zigzag(n1, 3, 0, 0, false);
+        let gap = if rng.chance(1, 2) { 0 } else { rng.range(4, 9) };     // 0: the vertical zig-zag crosses the horizontal one
+        let x0 = rng.range(-2, 2);
+        let b = zigzag(n2, 3, x0 - if gap > 0 { 3 + gap } else { 1 }, -1, true);
+        let (ga, gb) = (Geometry::LineString(LineString(a)), Geometry::LineString(LineString(b)));
+        let (ga, gb) = if rng.chance(1, 3) { (Geometry::MultiLineString(MultiLineString(vec![match ga { Geometry::LineString(l) => l, _ => unreachable!() }])), gb) } else { (ga, gb) };
+        return format!("C07.dist {} {} {}", proto::geom(&ga), proto::geom(&ga), proto::geom(&gb));
+    }
     let (a, b) = gen_pair(rng, index);
     let a2 = variant(rng, &a);
     format!("C07.dist {} {} {}", proto::geom(&a), proto::geom(&a2), proto::geom(&b))
